@@ -29,6 +29,42 @@ func famOf(n *e1.Node) string {
 	return s
 }
 
+// flushAfterStrip recognises one root cause: a flush heredoc in which a line ends with a
+// right strip marker (`~}`) and another line follows. The implementation strips the newline
+// first and then no longer treats the following line as a line start when it analyses and
+// removes the common indentation; spec.md defines the indentation analysis on the lines of the
+// source.
+func flushAfterStrip(n *e1.Node) bool {
+	if n.K == "tpl" && n.S == "hf" {
+		for i, ln := range n.Sub {
+			if i == len(n.Sub)-1 || len(ln.Sub) == 0 {
+				continue
+			}
+			lastPart := ln.Sub[len(ln.Sub)-1]
+			switch lastPart.K {
+			case "interp":
+				if lastPart.N&2 != 0 {
+					return true
+				}
+			case "tif":
+				if lastPart.N&32 != 0 {
+					return true
+				}
+			case "tfor":
+				if (lastPart.N/4)&8 != 0 {
+					return true
+				}
+			}
+		}
+	}
+	for _, sub := range n.Sub {
+		if flushAfterStrip(sub) {
+			return true
+		}
+	}
+	return false
+}
+
 func describe(v cty.Value) string {
 	if v == cty.NilVal {
 		return "<nil>"
@@ -94,7 +130,11 @@ func Handle(c *core.Check, st core.State, layouts []int) {
 				continue
 			}
 			if !val.RawEquals(predVal) {
-				c.Violation("value/"+famOf(node), fmt.Sprintf("%q: specification value %s, implementation value %s", src, describe(predVal), describe(val)), vec)
+				sig := "value/" + famOf(node)
+				if flushAfterStrip(node) {
+					sig = "value/flush-heredoc/line-after-right-strip-marker"
+				}
+				c.Violation(sig, fmt.Sprintf("%q: specification value %s, implementation value %s", src, describe(predVal), describe(val)), vec)
 				continue
 			}
 		}
